@@ -19,7 +19,7 @@
 (*           fields, rename, aliases, skip|->BOOLEAN, rename_all]          *)
 (* Field type: [f|->scalar] | [f|->"option"|"vec"|"map"|"box", of]         *)
 (*           | [f|->"array", n, of] | [f|->"named", id] | [f|->"uuid"]     *)
-(*           | [f|->"duration"]                                            *)
+(*           | [f|->"stdduration"]   (std::time::Duration)                 *)
 (* Identifiers are word lists over Vocab so that serde's eight rename      *)
 (* rules are computable.                                                   *)
 (***************************************************************************)
@@ -155,6 +155,10 @@ TyOf(defs, ft, stack) ==
     [] ft.f = "array" -> IF ft.n = 0 THEN TTuple("", <<>>)
                          ELSE TTuple("", [i \in 1..ft.n |-> TyOf(defs, ft.of, stack)])
     [] ft.f = "uuid" -> TFixedBytes("org.apache.avro.rust.Uuid", 16)
+    [] ft.f = "stdduration" ->          \* std::time::Duration: serde writes struct Duration { secs: u64, nanos: u32 }
+         [y |-> "struct", name |-> "Duration", ns |-> "", asmap |-> FALSE,
+          flds |-> <<[fname |-> "secs", fty |-> TS("u64"), dflt |-> "", alias |-> "", ser |-> "yes"],
+                     [fname |-> "nanos", fty |-> TS("u32"), dflt |-> "", alias |-> "", ser |-> "yes"]>>]
     [] ft.f = "named" ->
          IF Count(stack, ft.id) >= 2 THEN [y |-> "rec"]
          ELSE
@@ -290,6 +294,14 @@ SchemaCtx(defs, ft, named, encns) ==
          Once("org.apache.avro.rust.Uuid", named, LAMBDA nn :
               [s |-> [k |-> "uuid", base |-> "fixed", name |-> "org.apache.avro.rust.Uuid", short |-> "Uuid",
                       doc |-> "", aliases |-> <<>>, size |-> 16], named |-> nn])
+    [] ft.f = "stdduration" ->
+         \* documented: record org.apache.avro.rust.Duration { secs: fixed org.apache.avro.rust.u64 (a reference when
+         \* that name is already defined), nanos: long }
+         Once("org.apache.avro.rust.Duration", named, LAMBDA nn :
+              LET t == SchemaCtx(defs, [f |-> "u64"], nn, encns) IN
+              [s |-> RecT("org.apache.avro.rust.Duration", "Duration", "", <<>>,
+                          <<FieldT("secs", t.s, "", <<>>, ""), FieldT("nanos", [k |-> "long"], "", <<>>, "")>>, FALSE, FALSE),
+               named |-> t.named])
     [] ft.f = "option" ->
          LET t == SchemaCtx(defs, ft.of, named, encns) IN
          [s |-> [k |-> "union", branches |-> <<[k |-> "null"], t.s>>], named |-> t.named]
